@@ -36,6 +36,15 @@ func c15bStreams() []c15bStream {
 		}
 		return st
 	}
+	// Y carries the digest of A's payload but is fed the honest stream of Z's payload: nothing of it is authenticated by
+	// its digest, so Y may hand out nothing - also when the process parses Z's digest (creating Z) while Y is alive
+	z := mk("Z:d03 rs4 len9", mice.Draft03Encoding, 3, []byte("zzzzZZZZz"), 4, -1)
+	a := mk("A", mice.Draft03Encoding, 3, []byte("AAAAaaaaAAA"), 4, -1)
+	y := c15bStream{name: "Y:digest of A's payload, honest stream of Z's payload", enc: mice.Draft03Encoding, payload: a.payload, stream: append([]byte{}, z.stream...), digest: a.digest, honest: false}
+	return append(c15bBase(mk), z, y)
+}
+
+func c15bBase(mk func(name string, enc mice.Encoding, draft int, payload []byte, rs int, corrupt int) c15bStream) []c15bStream {
 	return []c15bStream{
 		mk("A:d03 rs4 len11", mice.Draft03Encoding, 3, []byte("AAAAaaaaAAA"), 4, -1),
 		mk("B:d03 rs3 len7", mice.Draft03Encoding, 3, []byte("bbbBBBb"), 3, -1),
